@@ -2281,6 +2281,158 @@ func TestGocvReplay(t *testing.T) {
 	}
 }
 `}
+	// registration builders (C14): every curve and every format the client can register an EC key in
+	replayers["scenario:C14-register"] = &Replayer{PkgDir: "kmipclient", Oracle: "freshly generated ECDSA keys on P-224, P-256, P-384 and P-521 and an RSA key, given to the Register builders in every key format (transparent, SEC1 / PKCS#1, PKCS#8, X.509) at protocol versions 1.2 and 1.4: the builder reports no error, and the object it builds, after a binary TTLV round trip of the request payload, is extracted by the accessors equal to the original key",
+		Template: `package kmipclient
+
+import (
+	"crypto/ecdsa"
+	"crypto/elliptic"
+	"crypto/rand"
+	"crypto/rsa"
+	"testing"
+
+	"github.com/ovh/kmip-go"
+	"github.com/ovh/kmip-go/payloads"
+	"github.com/ovh/kmip-go/ttlv"
+)
+
+func TestGocvReplay(t *testing.T) {
+	transport := func(t *testing.T, what string, ex ExecRegister) kmip.Object {
+		if ex.err != nil {
+			t.Fatalf("GOCV-REPRODUCED: {{.Obligation}}: %s: the Register builder reports %v", what, ex.err)
+		}
+		msg := kmip.NewRequestMessage(kmip.V1_4, ex.req)
+		var back kmip.RequestMessage
+		if err := ttlv.UnmarshalTTLV(ttlv.MarshalTTLV(&msg), &back); err != nil || len(back.BatchItem) != 1 {
+			t.Fatalf("GOCV-REPRODUCED: {{.Obligation}}: %s: the request does not decode: %v", what, err)
+		}
+		pl, ok := back.BatchItem[0].RequestPayload.(*payloads.RegisterRequestPayload)
+		if !ok {
+			t.Fatalf("GOCV-REPRODUCED: {{.Obligation}}: %s: the request payload decodes as %T", what, back.BatchItem[0].RequestPayload)
+		}
+		return pl.Object
+	}
+	rk, _ := rsa.GenerateKey(rand.Reader, 1024)
+	for _, v := range []kmip.ProtocolVersion{kmip.V1_2, kmip.V1_4} {
+		ver := v
+		c := &Client{supportedVersions: []kmip.ProtocolVersion{v}, version: &ver}
+		for _, curve := range []elliptic.Curve{elliptic.P224(), elliptic.P256(), elliptic.P384(), elliptic.P521()} {
+			key, err := ecdsa.GenerateKey(curve, rand.Reader)
+			if err != nil {
+				t.Fatal(err)
+			}
+			for _, f := range []KeyFormat{Transparent, SEC1, PKCS8} {
+				what := curve.Params().Name + " private key"
+				obj, ok := transport(t, what, c.Register().WithKeyFormat(f).EcdsaPrivateKey(key, kmip.CryptographicUsageSign)).(*kmip.PrivateKey)
+				if !ok {
+					t.Fatalf("GOCV-REPRODUCED: {{.Obligation}}: %s (format %d): not a private key object", what, f)
+				}
+				if got, err := obj.ECDSA(); err != nil || !got.Equal(key) {
+					t.Fatalf("GOCV-REPRODUCED: {{.Obligation}}: %s registered in format %d at %d.%d is extracted with err=%v, equal=%v", what, f, v.ProtocolVersionMajor, v.ProtocolVersionMinor, err, err == nil && got.Equal(key))
+				}
+			}
+			for _, f := range []KeyFormat{Transparent, X509} {
+				what := curve.Params().Name + " public key"
+				obj, ok := transport(t, what, c.Register().WithKeyFormat(f).EcdsaPublicKey(&key.PublicKey, kmip.CryptographicUsageVerify)).(*kmip.PublicKey)
+				if !ok {
+					t.Fatalf("GOCV-REPRODUCED: {{.Obligation}}: %s (format %d): not a public key object", what, f)
+				}
+				if got, err := obj.ECDSA(); err != nil || !got.Equal(&key.PublicKey) {
+					t.Fatalf("GOCV-REPRODUCED: {{.Obligation}}: %s registered in format %d at %d.%d is extracted with err=%v, equal=%v", what, f, v.ProtocolVersionMajor, v.ProtocolVersionMinor, err, err == nil && got.Equal(&key.PublicKey))
+				}
+			}
+		}
+		for _, f := range []KeyFormat{Transparent, PKCS1, PKCS8} {
+			obj, ok := transport(t, "RSA private key", c.Register().WithKeyFormat(f).RsaPrivateKey(rk, kmip.CryptographicUsageSign)).(*kmip.PrivateKey)
+			if !ok {
+				t.Fatalf("GOCV-REPRODUCED: {{.Obligation}}: RSA private key (format %d): not a private key object", f)
+			}
+			if got, err := obj.RSA(); err != nil || got.N.Cmp(rk.N) != 0 || got.D.Cmp(rk.D) != 0 || got.E != rk.E {
+				t.Fatalf("GOCV-REPRODUCED: {{.Obligation}}: RSA private key registered in format %d is extracted with err=%v or another modulus / exponent", f, err)
+			}
+		}
+	}
+}
+`}
+	// shutdown grace (C16): a request in flight that completes within the grace period is answered
+	replayers["scenario:C16-grace"] = &Replayer{PkgDir: "kmipserver", Oracle: "one connection, one request whose handler is released 300 ms after Shutdown has been called: the request completes within the grace period and its response reaches the client; Shutdown returns",
+		Template: `package kmipserver
+
+import (
+	"context"
+	"net"
+	"testing"
+	"time"
+
+	"github.com/ovh/kmip-go"
+	"github.com/ovh/kmip-go/payloads"
+	"github.com/ovh/kmip-go/ttlv"
+)
+
+type seed8BlockingHandler struct {
+	started chan struct{}
+	release chan struct{}
+}
+
+func (h *seed8BlockingHandler) HandleRequest(ctx context.Context, req *kmip.RequestMessage) *kmip.ResponseMessage {
+	close(h.started)
+	<-h.release
+	return &kmip.ResponseMessage{
+		Header: kmip.ResponseHeader{ProtocolVersion: req.Header.ProtocolVersion, TimeStamp: time.Now(), BatchCount: 1},
+		BatchItem: []kmip.ResponseBatchItem{ {
+			Operation:       kmip.OperationDiscoverVersions,
+			ResultStatus:    kmip.ResultStatusSuccess,
+			ResponsePayload: &payloads.DiscoverVersionsResponsePayload{},
+		}},
+	}
+}
+
+// A request in flight when Shutdown is called and that completes within the grace
+// period must be answered.
+func TestGocvReplay(t *testing.T) {
+	ln, err := net.Listen("tcp", "127.0.0.1:0")
+	if err != nil {
+		t.Fatal(err)
+	}
+	h := &seed8BlockingHandler{started: make(chan struct{}), release: make(chan struct{})}
+	srv := NewServer(ln, h)
+	go func() { _ = srv.Serve() }()
+
+	c, err := net.Dial("tcp", ln.Addr().String())
+	if err != nil {
+		t.Fatal(err)
+	}
+	defer c.Close()
+	stream := ttlv.NewStream(c, 1<<20)
+	req := kmip.NewRequestMessage(kmip.V1_4, &payloads.DiscoverVersionsRequestPayload{})
+	if err := stream.Send(&req); err != nil {
+		t.Fatal(err)
+	}
+	select {
+	case <-h.started:
+	case <-time.After(5 * time.Second):
+		t.Fatal("handler not started")
+	}
+	shut := make(chan error, 1)
+	go func() { shut <- srv.Shutdown() }()
+	time.Sleep(300 * time.Millisecond) // shutdown in progress, well inside the 3s grace period
+	close(h.release)
+	select {
+	case <-shut:
+	case <-time.After(10 * time.Second):
+		t.Fatalf("GOCV-REPRODUCED: {{.Obligation}}: Shutdown did not return")
+	}
+	_ = c.SetReadDeadline(time.Now().Add(5 * time.Second))
+	var resp kmip.ResponseMessage
+	if err := stream.Recv(&resp); err != nil {
+		t.Fatalf("GOCV-REPRODUCED: {{.Obligation}}: in-flight request completed within the grace period but was not answered: %v", err)
+	}
+	if len(resp.BatchItem) != 1 || resp.BatchItem[0].ResultStatus != kmip.ResultStatusSuccess {
+		t.Fatalf("GOCV-REPRODUCED: {{.Obligation}}: unexpected response %+v", resp)
+	}
+}
+`}
 	// abandoned exchange (C11): the writer goroutine must end when the caller has given up
 	replayers["scenario:C11-writeloop"] = &Replayer{PkgDir: "kmipclient", Oracle: "a request is handed to the writer goroutine over a pipe whose peer never reads, the caller's context is cancelled while the write is blocked, the connection is closed: send returns and, within 2 s, no goroutine of the connection is left blocked on a channel send",
 		Template: `package kmipclient
